@@ -260,3 +260,41 @@ func VerifC03_exactFitBlocked() {
 	verifAssert(verifBlockedCount() == 0, "no goroutine is left blocked")
 	verifReached("c03-exact-fit")
 }
+
+// (c') A Produce that was already blocked at the limit when Flush begins counts as "produced
+// before it began": Flush waits for blocked producers too, so it returns only after that
+// record has been admitted and its promise has run. One buffered record, a second Produce
+// parked at MaxBufferedRecords(1) BEFORE Flush starts, sinks that complete admitted records;
+// every schedule within the delay budget.
+func VerifC03_flushCoversBlockedProduce() {
+	delays := 2
+	if verifThorough() {
+		delays = 4
+	}
+	verifPreemptions(delays)
+	cl := verifC03Client(1, 0)
+	p1calls, p2calls := 0, 0
+	cl.produce(context.Background(), &Record{Topic: "t", Value: []byte{1}}, func(*Record, error) { p1calls++ }, true)
+	verifC03.autoSink = true
+	p2done, flushDone := false, false
+	go func() {
+		cl.produce(context.Background(), &Record{Topic: "t", Value: []byte{2}}, func(_ *Record, err error) { p2calls++ }, true)
+		p2done = true
+	}()
+	verifRunAll() // the second Produce is now parked at the limit
+	verifAssert(!p2done && cl.producer.blocked.Load() == 1, "the second Produce is blocked at MaxBufferedRecords")
+	var flushErr error
+	p1At, p2At := -1, -1
+	go func() {
+		flushErr = cl.Flush(context.Background())
+		p1At, p2At = p1calls, p2calls
+		flushDone = true
+	}()
+	go cl.producer.promiseBatch(batchPromise{recs: []promisedRec{verifC03.admitted[0]}})
+	verifRunAll()
+	verifAssert(p2done && flushDone && flushErr == nil, "the blocked Produce and the Flush both return")
+	verifAssert(p1At == 1, "Flush returns only after the buffered record's promise ran")
+	verifAssert(p2At == 1, "Flush returns only after the record of a Produce that was blocked when Flush began has been produced and its promise ran")
+	verifAssert(verifBlockedCount() == 0, "no goroutine is left blocked")
+	verifReached("c03-flush-covers-blocked")
+}
